@@ -64,8 +64,14 @@ where
 			// string from a &str reference, which probably explains the
 			// difference.
 			let mut de = serde_json::Deserializer::from_reader(BufReader::new(r));
-			while de.end().is_err() {
-				output.transcode_from(&mut de)?;
+			loop {
+				match de.end() {
+					Ok(()) => break,
+					// A reader failure is not the start of another value: report
+					// it as is, before the output starts on a new document.
+					Err(err) if err.is_io() => return Err(err.into()),
+					Err(_) => output.transcode_from(&mut de)?,
+				}
 			}
 		}
 	}
